@@ -115,6 +115,11 @@ def _templates(ch, allow_raising: bool):
         ("not (int(<fd>) %% %d == %d)" % (k, r), ["fd"], lambda a, k=k, r=r: not (int(a) % k == r), "not"),
         ("int(<fd>) < 900", ["fd"], lambda a: int(a) < 900, "cmp"),
         ("int(<fa>) != int(<fb>) + 1", ["fa", "fb"], lambda a, b: int(a) != int(b) + 1, "cmp"),
+        # quantifiers: a bound symbol next to a free one; the predicate gets the whole model (see QUANT)
+        ("forall <x> in <fd>: int(<x>) <= int(<fa>)", "QUANT", lambda m: all(int(x) <= int(a) for a in _texts(m, "fa") for x in _texts(m, "fd")), "forall-free"),
+        ("exists <x> in <fd>: int(<x>) >= int(<fb>)", "QUANT", lambda m: all(any(int(x) >= int(b) for x in _texts(m, "fd")) for b in _texts(m, "fb")), "exists-free"),
+        ("forall <x> in <fd>: int(<x>) %% %d == %d" % (k, r), "QUANT", lambda m, k=k, r=r: all(int(x) % k == r for x in _texts(m, "fd")), "forall"),
+        ("forall <x> in <fd>: exists <y> in <fd>: int(<y>) >= int(<x>) and int(<x>) <= int(<fa>)", "QUANT", lambda m: all(any(int(y) >= int(x) and int(x) <= int(a) for y in _texts(m, "fd")) for a in _texts(m, "fa") for x in _texts(m, "fd")), "forall-exists-free"),
     ]
     if allow_raising:
         t += [
@@ -219,7 +224,15 @@ def gen_searchspec(ch, cfg: dict) -> SearchSpec:
         if s.with_pair and ch.coin(0.4, "spec", "pair-tpl"):
             tpl = PAIR_TEMPLATES
         text, names, fn, kind = tpl[ch.draw(len(tpl), "spec", "tpl")]
-        s.cons.append({"text": "where " + text, "names": names, "pred": (lambda m, names=names, fn=fn: _all(m, names, fn)), "kind": kind})
+        if names == "QUANT":
+            def pred(m, fn=fn):
+                try:
+                    return bool(fn(m))
+                except Exception:
+                    return False
+            s.cons.append({"text": "where " + text, "names": [], "pred": pred, "kind": kind})
+        else:
+            s.cons.append({"text": "where " + text, "names": names, "pred": (lambda m, names=names, fn=fn: _all(m, names, fn)), "kind": kind})
     order = ch.shuffle(list(range(len(s.cons))), "spec", "cons-order")
     s.cons = [s.cons[i] for i in order]
     n_extra = 0
